@@ -1,7 +1,7 @@
 #!/bin/sh
 # tools_mkseed.sh <ID>: scratch git worktree of /repo HEAD for a sub-agent, with the (git-ignored) build artefacts copied in
 ID=$1
-WT=/tmp/seed-$ID
+WT=${SEED_PREFIX:-/tmp/seed-}$ID
 git -C /repo worktree remove --force $WT 2>/dev/null
 rm -rf $WT
 git -C /repo worktree add -q $WT HEAD || exit 1
